@@ -14,11 +14,11 @@ import (
 type pexpr struct {
 	Op     string // seq alt query star plus and not capture lit class dot name action pred state nil
 	Kids   []*pexpr
-	S      string      // literal text (decoded), rule name, action code
-	Insens bool        // case-insensitive literal / class
-	Neg    bool        // negated class
-	Ranges [][2]rune   // class members
-	Pos    int         // line
+	S      string    // literal text (decoded), rule name, action code
+	Insens bool      // case-insensitive literal / class
+	Neg    bool      // negated class
+	Ranges [][2]rune // class members
+	Pos    int       // line
 }
 
 type prule struct {
@@ -28,13 +28,13 @@ type prule struct {
 }
 
 type pgrammar struct {
-	Package  string
-	Imports  []string
-	Type     string
-	State    string
-	Rules    []*prule
-	ByName   map[string]*prule
-	File     string
+	Package string
+	Imports []string
+	Type    string
+	State   string
+	Rules   []*prule
+	ByName  map[string]*prule
+	File    string
 }
 
 type pegParser struct {
@@ -55,7 +55,9 @@ func (p *pegParser) fail(format string, a ...any) {
 	panic(pegSyntaxError{fmt.Sprintf("%s:%d: %s", p.file, line, fmt.Sprintf(format, a...))})
 }
 
-func (p *pegParser) line() int { return 1 + strings.Count(string(p.src[:min(p.pos, len(p.src))]), "\n") }
+func (p *pegParser) line() int {
+	return 1 + strings.Count(string(p.src[:min(p.pos, len(p.src))]), "\n")
+}
 
 func (p *pegParser) eof() bool { return p.pos >= len(p.src) }
 
@@ -171,10 +173,16 @@ func parsePeg(file, text string) (g *pgrammar, err error) {
 	if !p.eat("package") {
 		p.fail("expected package clause")
 	}
+	if !p.eof() && isIdentCont(p.peek()) {
+		p.fail("expected a break behind package")
+	}
 	p.spacing()
 	g.Package, _ = p.identifier()
 	for p.has("import") {
 		p.eat("import")
+		if !p.eof() && isIdentCont(p.peek()) {
+			p.fail("expected a break behind import")
+		}
 		p.spacing()
 		one := func() {
 			if id, ok := p.identifier(); ok {
@@ -203,6 +211,9 @@ func parsePeg(file, text string) (g *pgrammar, err error) {
 	}
 	if !p.eat("type") {
 		p.fail("expected parser type declaration")
+	}
+	if !p.eof() && isIdentCont(p.peek()) {
+		p.fail("expected a break behind type")
 	}
 	p.spacing()
 	g.Type, _ = p.identifier()
